@@ -91,7 +91,7 @@ func (p *remoteProp) Assumptions() []string {
 
 func (p *remoteProp) Gen(r *Rand, tier string, idx int) any {
 	rp := &RemoteParams{}
-	rp.Graph = *GenGraph(r, GraphOpts{MaxNodes: 10, Referrers: true, OneDigest: true, NoTwins: true, NoForeign: true})
+	rp.Graph = *GenGraph(r, GraphOpts{MaxNodes: 10, Referrers: true, OneDigest: true, NoTwins: true, NoForeign: true, SHA512: true})
 	g := rp.Graph.Build()
 	nn := len(g.Nodes)
 	rp.Profile = RegProfile{ReferrersAPI: r.Bool(), DigestHeader: r.Chance(0.7), Range: r.Bool(), MountOK: r.Bool(), NoContentLength: r.Chance(0.25),
@@ -536,6 +536,13 @@ func (p *remoteProp) step(ctx context.Context, rc *RunCtx, rp *RemoteParams, g *
 				pinned = (op.Op == "fetch" || op.Op == "fetchrefdigest") && byDigest && rq.Method == "GET" && rq.Status == 200 && rq.Ref == n.Desc.Digest.String() && len(n.Data) > 0
 			}
 		}
+		if op.Op == "tag" && err == nil && n.IsManif && present && rq != nil && rq.Method == "GET" && (f.Kind == "flip-body" || f.Kind == "truncate-body") {
+			// Tag reads the manifest back and stores it under the new name: when it reports
+			// success the name must lead to the content of the descriptor it was given
+			if d, ok := reg.TagOf(simRepo, op.Ref); ok && d != n.Desc.Digest {
+				return violation("tag-set-to-other-content", "", "step %d %s returned nil but %q now names %s: the manifest read back for tagging (request %d, %s) was stored without being checked against the descriptor\n%s", i, op, op.Ref, d, rq.N, f.Kind, hist())
+			}
+		}
 		if pinned && err == nil {
 			sig := ""
 			if rq.Status == 206 && f.Kind == "digest-header" {
@@ -557,7 +564,7 @@ func (p *remoteProp) step(ctx context.Context, rc *RunCtx, rp *RemoteParams, g *
 			if op.Op == "pushref" && !n.IsManif {
 				return nil // PushReference of a non-manifest: the registry refuses the body as a manifest
 			}
-			return violation("unexpected-error", "", "step %d %s failed: %v\n%s", i, op, err, hist())
+			return violation("unexpected-error", remoteErrSig(err), "step %d %s failed: %v\n%s", i, op, err, hist())
 		}
 		if op.Op == "pushref" && !n.IsManif {
 			// stored as a "manifest" of that media type by a permissive registry; not judged
@@ -580,7 +587,7 @@ func (p *remoteProp) step(ctx context.Context, rc *RunCtx, rp *RemoteParams, g *
 			return nil
 		}
 		if err != nil {
-			return violation("unexpected-error", "", "step %d %s failed: %v\n%s", i, op, err, hist())
+			return violation("unexpected-error", remoteErrSig(err), "step %d %s failed: %v\n%s", i, op, err, hist())
 		}
 		if !bytes.Equal(gotBytes, n.Data) {
 			return violation("wrong-bytes", "", "step %d %s returned other bytes than were pushed\n%s", i, op, hist())
@@ -592,14 +599,14 @@ func (p *remoteProp) step(ctx context.Context, rc *RunCtx, rp *RemoteParams, g *
 			return seekViolation
 		}
 		if present && err != nil {
-			return violation("unexpected-error", "", "step %d %s failed: %v\n%s", i, op, err, hist())
+			return violation("unexpected-error", remoteErrSig(err), "step %d %s failed: %v\n%s", i, op, err, hist())
 		}
 		if !present && err == nil {
 			return violation("fetched-absent-content", "", "step %d %s succeeded although the registry does not hold it\n%s", i, op, hist())
 		}
 	case "exists":
 		if err != nil {
-			return violation("unexpected-error", "", "step %d %s failed: %v\n%s", i, op, err, hist())
+			return violation("unexpected-error", remoteErrSig(err), "step %d %s failed: %v\n%s", i, op, err, hist())
 		}
 		if gotBool != present {
 			return violation("wrong-answer", "", "step %d %s = %v, registry holds it: %v\n%s", i, op, gotBool, present, hist())
@@ -617,7 +624,7 @@ func (p *remoteProp) step(ctx context.Context, rc *RunCtx, rp *RemoteParams, g *
 			if needHeader {
 				return nil // documented client requirement
 			}
-			return violation("unexpected-error", "", "step %d %s failed: %v\n%s", i, op, err, hist())
+			return violation("unexpected-error", remoteErrSig(err), "step %d %s failed: %v\n%s", i, op, err, hist())
 		}
 		m, _ := reg.HasManifest(simRepo, tagDigest)
 		if m == nil {
@@ -641,7 +648,7 @@ func (p *remoteProp) step(ctx context.Context, rc *RunCtx, rp *RemoteParams, g *
 			if rp.Profile.NoContentLength && !rp.Profile.DigestHeader {
 				return nil // documented client requirement (HEAD fallback needs a digest header)
 			}
-			return violation("unexpected-error", "", "step %d %s failed: %v\n%s", i, op, err, hist())
+			return violation("unexpected-error", remoteErrSig(err), "step %d %s failed: %v\n%s", i, op, err, hist())
 		}
 		if gotDesc.Digest != n.Desc.Digest || gotDesc.Size != n.Desc.Size || !bytes.Equal(gotBytes, n.Data) {
 			return violation("wrong-answer", "", "step %d %s returned %s %d and %d bytes, expected %s %d\n%s", i, op, gotDesc.Digest, gotDesc.Size, len(gotBytes), n.Desc.Digest, n.Desc.Size, hist())
@@ -655,7 +662,7 @@ func (p *remoteProp) step(ctx context.Context, rc *RunCtx, rp *RemoteParams, g *
 			return nil
 		}
 		if err != nil {
-			return violation("unexpected-error", "", "step %d %s failed: %v\n%s", i, op, err, hist())
+			return violation("unexpected-error", remoteErrSig(err), "step %d %s failed: %v\n%s", i, op, err, hist())
 		}
 		if gotDesc.Digest != n.Desc.Digest || gotDesc.Size != n.Desc.Size {
 			return violation("wrong-answer", "", "step %d %s = %s %d, expected %s %d\n%s", i, op, gotDesc.Digest, gotDesc.Size, n.Desc.Digest, n.Desc.Size, hist())
@@ -668,7 +675,7 @@ func (p *remoteProp) step(ctx context.Context, rc *RunCtx, rp *RemoteParams, g *
 			return nil
 		}
 		if err != nil {
-			return violation("unexpected-error", "", "step %d %s failed: %v\n%s", i, op, err, hist())
+			return violation("unexpected-error", remoteErrSig(err), "step %d %s failed: %v\n%s", i, op, err, hist())
 		}
 		if d, ok := reg.TagOf(simRepo, op.Ref); !ok || d != n.Desc.Digest {
 			return violation("tag-not-set", "", "step %d %s returned nil but the registry tag points to %v\n%s", i, op, d, hist())
@@ -686,7 +693,7 @@ func (p *remoteProp) step(ctx context.Context, rc *RunCtx, rp *RemoteParams, g *
 			if errors.As(err, &re) && re.IsReferrersIndexDelete() {
 				return nil
 			}
-			return violation("unexpected-error", "", "step %d %s failed: %v\n%s", i, op, err, hist())
+			return violation("unexpected-error", remoteErrSig(err), "step %d %s failed: %v\n%s", i, op, err, hist())
 		}
 		if regHas(reg, simRepo, n) {
 			return violation("delete-not-applied", "", "step %d %s returned nil but the registry still holds the content\n%s", i, op, hist())
@@ -704,7 +711,7 @@ func (p *remoteProp) step(ctx context.Context, rc *RunCtx, rp *RemoteParams, g *
 			return nil
 		}
 		if err != nil {
-			return violation("unexpected-error", "", "step %d %s failed: %v\n%s", i, op, err, hist())
+			return violation("unexpected-error", remoteErrSig(err), "step %d %s failed: %v\n%s", i, op, err, hist())
 		}
 		if b, ok := reg.HasBlob(simRepo, n.Desc.Digest); !ok || !bytes.Equal(b, n.Data) {
 			return violation("mount-not-applied", "", "step %d %s returned nil but the repository does not hold the blob\n%s", i, op, hist())
@@ -712,7 +719,7 @@ func (p *remoteProp) step(ctx context.Context, rc *RunCtx, rp *RemoteParams, g *
 		*okOps++
 	case "preds":
 		if err != nil {
-			return violation("unexpected-error", "", "step %d %s failed: %v\n%s", i, op, err, hist())
+			return violation("unexpected-error", remoteErrSig(err), "step %d %s failed: %v\n%s", i, op, err, hist())
 		}
 		if !n.IsManif && len(refsBefore) == 0 && len(gotList) == 0 {
 			return nil
@@ -730,11 +737,20 @@ func (p *remoteProp) step(ctx context.Context, rc *RunCtx, rp *RemoteParams, g *
 			delete(got, k)
 		}
 		for k, c := range got {
+			if _, known := g.byKey[k]; !known && want[k] && c == 1 {
+				continue
+			}
 			if !want[k] || c > 1 {
 				return violation("wrong-referrers", "", "step %d %s lists %s (%d times) which the registry model does not list\n%s", i, op, shortKey(g, k), c, hist())
 			}
 		}
 		for k := range want {
+			if _, known := g.byKey[k]; !known {
+				// a manifest no operation of this history named: a tampered exchange made the
+				// registry store other bytes than the client sent. With the tag schema nobody
+				// indexed it; with the API the registry lists it. Neither is judged.
+				continue
+			}
 			if got[k] == 0 {
 				return violation("wrong-referrers", "", "step %d %s omits referrer %s\n%s", i, op, shortKey(g, k), hist())
 			}
@@ -809,4 +825,15 @@ func (p *remoteProp) readSeek(rc io.ReadCloser, n *Node, op RemoteOp, present bo
 		pos += int64(k)
 	}
 	return nil
+}
+
+// remoteErrSig names the one failure of a conforming history that is recorded as
+// a known finding: without the Referrers API the client addresses the referrers
+// of a sha512 digest by the tag "sha512-<128 hex digits>", which is longer than a
+// tag may be, so every operation that needs that tag is refused locally.
+func remoteErrSig(err error) string {
+	if err != nil && strings.Contains(err.Error(), `invalid tag "sha512-`) {
+		return "referrers-tag-of-sha512-subject-exceeds-tag-length"
+	}
+	return ""
 }
